@@ -289,6 +289,56 @@ VARIANTS = [
     {"name": "P R6 Message.from_dict assignment order", "file": MSG, "expect": "silent",
      "old": "            msg.extra = dict_val['extra']\n            msg.acks = dict_val['acks']\n",
      "new": "            msg.acks = dict_val['acks']\n            msg.extra = dict_val['extra']\n"},
+    # ---- dispatch tables (R2 / R4 follow a dict of callables indexed by the operator)
+    {"name": "R4 '&' moved into a dispatch table row returning the raw int", "expect": "C18.R4", "edits": [
+        {"file": LOGR, "old": "class BaseMessageLogger:\n", "new": "_BIT_OPS = {\"&\": lambda field, wanted: field & wanted}\n\n\nclass BaseMessageLogger:\n"},
+        {"file": LOGR, "old": "            elif operator == \"&\":\n                return bool(val & expected)",
+         "new": "            elif operator in _BIT_OPS:\n                return _BIT_OPS[operator](val, expected)"}]},
+    {"name": "R2 dispatch table row for '&' applies |", "expect": "C18.R2", "edits": [
+        {"file": LOGR, "old": "class BaseMessageLogger:\n", "new": "_BIT_OPS = {\"&\": lambda field, wanted: bool(field | wanted)}\n\n\nclass BaseMessageLogger:\n"},
+        {"file": LOGR, "old": "            elif operator == \"&\":\n                return bool(val & expected)",
+         "new": "            elif operator in _BIT_OPS:\n                return _BIT_OPS[operator](val, expected)"}]},
+    {"name": "R4 dispatch through a table outside the try", "expect": "C18.R4", "edits": [
+        {"file": LOGR, "old": "class BaseMessageLogger:\n", "new": "_ORDER_OPS = {\"<\": lambda field, wanted: field < wanted}\n\n\nclass BaseMessageLogger:\n"},
+        {"file": LOGR, "old": "        try:\n            if not operator:\n                return bool(val)",
+         "new": "        if operator in _ORDER_OPS:\n            return _ORDER_OPS[operator](val, expected)\n        try:\n            if not operator:\n                return bool(val)"},
+        {"file": LOGR, "old": "            elif operator == \"<\":\n                return val < expected\n", "new": ""}]},
+    {"name": "P '&' moved into a dispatch table row", "expect": "silent", "edits": [
+        {"file": LOGR, "old": "class BaseMessageLogger:\n", "new": "_BIT_OPS = {\"&\": lambda field, wanted: bool(field & wanted)}\n\n\nclass BaseMessageLogger:\n"},
+        {"file": LOGR, "old": "            elif operator == \"&\":\n                return bool(val & expected)",
+         "new": "            elif operator in _BIT_OPS:\n                compare = _BIT_OPS[operator]\n                return compare(val, expected)"}]},
+    # ---- R7 breaking
+    {"name": "R7 subfield loop stops at the first key whose name matches", "file": LOGR, "expect": "C18.R7",
+     "old": "                                elif self._val_matches(matcher.operator, deserialized[key], matcher.value):\n"
+            "                                    found_field_keys.append(field_key)\n                                    break",
+     "new": "                                elif self._val_matches(matcher.operator, deserialized[key], matcher.value):\n"
+            "                                    found_field_keys.append(field_key)\n                                break"},
+    {"name": "R7 short-circuit return after the first examined variable", "file": LOGR, "expect": "C18.R7",
+     "old": "                    if short_circuit and found_field_keys:", "new": "                    if short_circuit:"},
+    {"name": "R7 field recorded without a comparison", "file": LOGR, "expect": "C18.R7",
+     "old": "                        elif self._val_matches(matcher.operator, block[var_name], matcher.value):\n                            found_field_keys.append(field_key)",
+     "new": "                        else:\n                            found_field_keys.append(field_key)"},
+    # ---- R7 preserving
+    {"name": "P R7 subfield test folded into one condition, break kept under it", "file": LOGR, "expect": "silent",
+     "old": "                                if matcher.value is None:\n"
+            "                                    # Short-circuiting checking individual subfields is fine since\n"
+            "                                    # we only highlight fields anyway.\n"
+            "                                    found_field_keys.append(field_key)\n"
+            "                                    break\n"
+            "                                elif self._val_matches(matcher.operator, deserialized[key], matcher.value):\n"
+            "                                    found_field_keys.append(field_key)\n"
+            "                                    break",
+     "new": "                                if matcher.value is None or \\\n"
+            "                                        self._val_matches(matcher.operator, deserialized[key], matcher.value):\n"
+            "                                    found_field_keys.append(field_key)\n"
+            "                                    break"},
+    # ---- R6 block lists
+    {"name": "R6 from_dict creates block lists only when they have entries", "file": MSG, "expect": "C18.R6",
+     "old": "            msg.create_block_list(block_type)\n            for block in blocks:",
+     "new": "            if blocks:\n                msg.create_block_list(block_type)\n            for block in blocks:"},
+    {"name": "P R6 from_dict creates the list by item assignment", "file": MSG, "expect": "silent",
+     "old": "            msg.create_block_list(block_type)\n            for block in blocks:",
+     "new": "            msg.blocks[block_type] = []\n            for block in blocks:"},
     # ---- documented limits
     {"name": "X bare selector matches on the raw value instead of truthiness", "file": LOGR, "expect": "miss",
      "old": "                return bool(val)\n", "new": "                return val is not None\n"},
